@@ -9,7 +9,7 @@ MANIFEST = {
     'engine': 'E3',
     'category': 'fault_enumeration',
     'technique': 'exhaustive enumeration of all fault subsets x injection positions on real files and dictionaries, faulted and unaffected cells compared with the fault-free workbook',
-    'text': 'A workbook with a 3-cell dependency chain, an independent chain, a range aggregate and IFERROR/ISERROR/IFNA dependents is written to disk with every one of the 2^11 subsets '
+    'text': 'A workbook with a 3-cell dependency chain, an independent chain, a range aggregate and IFERROR/ISERROR/IFNA dependents is written to disk with every one of the 2^12 subsets '
             'of injected faults (unknown function, _xlfn-prefixed unknown function, absent sheet, absent workbook file, zero-byte workbook file, two different undefined names, #REF! literal, '
             'external-link index without target, absent sheets of an existing linked workbook) at the head, middle and leaf of the chain (quick: all subsets at the middle, singles and pairs elsewhere), loaded with '
             'loads().finish() and calculated; loading/calculation must not raise, the faulted cell and its dependents must be error values of the stated kind, '
@@ -20,16 +20,18 @@ MANIFEST = {
 RULE = 'case = (path, position, fault subset); non-trivial = subset non-empty and loaded+calculated; distinct = case key'
 ASSUMPTIONS = ['one workbook shape; fault kinds are those the statement lists']
 
-FAULTS = ['func', 'xlfn', 'sheet', 'book', 'unreadable', 'name', 'ref', 'link', 'xsheetZ', 'xsheetA', 'name2']
+FAULTS = ['func', 'xlfn', 'sheet', 'book', 'unreadable', 'name', 'ref', 'link', 'xsheetZ', 'xsheetA', 'name2', 'xlslink']
 DICT_FAULTS = ['func', 'xlfn', 'name', 'ref', 'name2']
 EXPR = {
     'func': 'NOSUCHFUNC(A1)', 'xlfn': '_xlfn.NEWFUNC(A1)', 'sheet': 'MISSING!A1', 'book': "'[nofile.xlsx]Q'!A1",
     'unreadable': "'[empty.xlsx]Q'!A1", 'name': 'UNDEFNAME', 'ref': '#REF!', 'link': '[7]Q!A1',
     # an absent sheet of an EXISTING, readable linked workbook (c.xlsx has sheets Alpha and Beta), sorting after / before them
     'xsheetZ': "'[c.xlsx]Zeta'!A1", 'xsheetA': "'[c.xlsx]Aaa'!A1", 'name2': 'OTHERNAME',
+    # the workbook's link table is [legacy.xls (not loadable), c.xlsx]: [1] is unresolvable, [2] is c.xlsx
+    'xlslink': '[1]Sheet1!A1',
 }
 KIND = {'func': ['#NAME?'], 'xlfn': ['#NAME?'], 'sheet': ['#REF!'], 'book': ['#REF!'], 'unreadable': ['#REF!'], 'name': ['#REF!', '#NAME?'],
-        'ref': ['#REF!'], 'link': ['#REF!', '#NAME?'], 'xsheetZ': ['#REF!'], 'xsheetA': ['#REF!'], 'name2': ['#REF!', '#NAME?']}
+        'ref': ['#REF!'], 'link': ['#REF!', '#NAME?'], 'xsheetZ': ['#REF!'], 'xsheetA': ['#REF!'], 'name2': ['#REF!', '#NAME?'], 'xlslink': ['#REF!', '#NAME?']}
 POS = ['head', 'middle', 'leaf']
 P = "'[b.xlsx]S'!"
 
@@ -55,6 +57,7 @@ def formulas_for(pos, faults, qualify=False):
         # references into the existing linked workbook: never depend on any fault
         c['E2'] = "='[c.xlsx]Alpha'!A1+'[c.xlsx]Beta'!A1"
         c['E3'] = "=SUM('[c.xlsx]Alpha'!A1:A2)"
+        c['E4'] = '=[2]Alpha!A1*2'            # numeric external-link form of the readable linked book
 
     return c, tgt
 
@@ -81,6 +84,7 @@ def expected(pos, faults, path='file'):
     if path == 'file':
         exp['E2'] = ('n', 70.0)
         exp['E3'] = ('n', 35.0)
+        exp['E4'] = ('n', 60.0)
     return exp
 
 
@@ -101,7 +105,7 @@ def judge(sol, pos, faults, path, fails):
             elif g[1] not in e[1]:
                 fails.append(Fail('wrong-error-kind', got=g, exp=e[1], cell=c, **desc))
         elif g != e:
-            cls = 'damage-not-local' if c in ('B1', 'B2', 'E1', 'E2', 'E3', 'A1', 'A2') or (c.startswith('C') and e[0] == 'n') else 'dependent-wrong'
+            cls = 'damage-not-local' if c in ('B1', 'B2', 'E1', 'E2', 'E3', 'E4', 'A1', 'A2') or (c.startswith('C') and e[0] == 'n') else 'dependent-wrong'
             fails.append(Fail(cls, got=g, exp=e, cell=c, **desc))
 
 
@@ -122,6 +126,12 @@ def run_case(case):
             ws['A1'], ws['A2'] = 1, 2
             for c, f in cells.items():
                 ws[c] = f
+            from openpyxl.packaging.relationship import Relationship
+            from openpyxl.workbook.external_link.external import ExternalLink, ExternalBook, ExternalSheetNames
+            for target, sheets in (('legacy.xls', ['Sheet1']), ('c.xlsx', ['Alpha', 'Beta'])):
+                el = ExternalLink(externalBook=ExternalBook(sheetNames=ExternalSheetNames(sheetName=sheets)))
+                el.file_link = Relationship(type='externalLinkPath', Target=target, TargetMode='External')
+                wb._external_links.append(el)
             with Scratch() as d:
                 wb.save(os.path.join(d, 'b.xlsx'))
                 open(os.path.join(d, 'empty.xlsx'), 'wb').close()
